@@ -1,7 +1,7 @@
 (** Property C07: invalid policies are rejected, never mis-compiled; valid ones are accepted. *)
 From Coq Require Import String List NArith Bool.
 From Seccomp Require Import Words Result Machine Assembler Policy Spec Tables Text TextProofs CompileProofs RejectProofs PolicyTop ValidationTemplates.
-From Gen Require Import GenTables GenArches GenCodegen.
+From Gen Require Import GenTables GenArches GenNames GenCodegen.
 Import ListNotations.
 Open Scope N_scope.
 
@@ -89,6 +89,24 @@ Proof.
   apply expected_templates_are_to_syscalls.
 Qed.
 Print Assumptions C07_source_validation_is_the_model.
+
+(** ... and of the check on the conditions of one entry: [validate_template] is ArgumentConditions.Validate REGENERATED as
+    the conditions under which a problem is recorded (once for the list: it is empty; per condition: the argument index is
+    out of range, the operation is not valid), [operation_valid_template] is Operation.valid (membership, compared with ==,
+    in the regenerated list of operation constants). Their meaning is the model's [conds_valid] for EVERY list of
+    conditions (argument indices are decided by evaluation at the finitely many values around the constants of the source
+    - [validate_ok_sound]), so "an argument index above 5" and "an operation it does not implement" are refused by the
+    code that is in the source now. *)
+Theorem C07_source_conditions_check_is_the_model :
+  validate_template_shape = true /\
+  (forall cs, tpl_conds_valid validate_template cs = conds_valid cs) /\
+  operation_valid_template = OVMemberExact "Operations"%string /\
+  (forall s, existsb (String.eqb s) operations = op_valid (op_of_go_string s)).
+Proof.
+  split; [reflexivity|]. split; [apply validate_ok_sound; vm_compute; reflexivity|]. split; [reflexivity|].
+  apply member_exact_is_op_valid. vm_compute. reflexivity.
+Qed.
+Print Assumptions C07_source_conditions_check_is_the_model.
 
 (** non-vacuity: one rejected policy per defect kind with the expected class, and an accepted one *)
 Theorem C07_nonvacuous :
